@@ -1,5 +1,6 @@
 SPECIFICATION TSpec
 INVARIANT C14_NeverInward
+INVARIANT C14_NeverInwardUpToFloatNoise
 INVARIANT C14_KeepsOrientation
 INVARIANT C14_LessThanTwoSteps
 INVARIANT C14_OnTenthOfStepExceptDoubleWiden
